@@ -222,7 +222,7 @@ struct IdxUnit : Unit
          }
          // IdxSet::remove(n,m) with fewer survivors behind m than removed indices writes idx[n-1]; with n == 0 that is
          // idx[-1], which only the caller-provided (guarded) memory of the plain IdxSet can absorb
-         if(DYN && hazards().idxRemoveTail && a == 0 && (n - 1 - b) < (b - a + 1)) return skip();
+         if((DYN || buf.empty() || s.idx != buf.data() + 1) && hazards().idxRemoveTail && a == 0 && (n - 1 - b) < (b - a + 1)) return skip();
          note("{" + I(a) + ".." + I(b) + "/" + I(n) + "}");
          s.remove(a, b);
          std::vector<int> prefix(model.begin(), model.begin() + a);
